@@ -185,7 +185,7 @@ pub fn replay(prefix: &str, tape: &[u32], _params: &Value) -> Option<Option<(Str
 pub fn run(run: &Run) {
     run.rule("twin documents per value (every Primitive kind incl. integers, reals, names, null, booleans, references, nested containers): stored as ordinary indirect object vs member of an object stream at first/middle/last position, with/without trailing white-space, /First tight or padded, object stream unfiltered or with 1-2 filters from {ASCIIHex, ASCII85, RunLength, LZW, Flate}; plus a stream whose /Length is direct, a reference to a direct integer, or to an integer inside an object stream. resolve() must agree between twins and with the written value; Stream::data/raw_data with the written bytes. 4 configurations. distinct_nontrivial = distinct compressed-twin files");
     run.assume("object-stream filters are encoded by the reference encoders of C05; values printed in the plain spelling");
-    let n = run.n(40_000, 600_000);
+    let n = run.n(40_000, 2_000_000);
     par_for(n, |i| {
         run.eval();
         check_case(run, "C11", "twin", Src::fresh(Rng::derive(run.seed, 11, i)), &gen_case, &oracle, &witness, &|c, s| {
